@@ -47,8 +47,19 @@ def sites():
 
     t, u = _Table("t"), _Table("u")
 
+    def ddl_decoys():
+        # other DDL statements come into being, through every query class, between building a DDL statement and rendering it
+        for Q2 in core.query_classes().values():
+            Q2.create_table("decoy").columns(Column("d", "INT"))
+            Q2.drop_table("decoy")
+
     def render(Q, q):
+        ddl_decoys()
         return q.get_sql(Q.SQL_CONTEXT)
+
+    def late(q):
+        ddl_decoys()
+        return q
 
     def from_table(Q, n): return str(Q.from_(Table(n)).select("x"))
     def from_table_star(Q, n): return str(Q.from_(Table(n)).join(u).on(Table(n).x == u.x).select(Table(n).star))
@@ -64,6 +75,7 @@ def sites():
     def database_schema(Q, n):
         db = shared(("Ds", n), lambda: Database("db"))
         return str(Q.from_(getattr(db, "sch").__getattr__("t") if False else Schema(n, parent=db).t).select("x"))
+    def column_item_access(Q, n): return str(Q.from_(t).select(t[n]).where(t[n] == 1))      # table["name"] is the column called name, whatever the name
     def column_select(Q, n): return str(Q.from_(t).select(shared(("F", n), lambda: t.field(n))))
     def column_where(Q, n): return str(Q.from_(t).select(t.x).where(shared(("Fw", n), lambda: t.field(n) == 1)))
     def field_of_aliased_table(Q, n):
@@ -160,10 +172,10 @@ def sites():
     def create_as_select_own(Q, n): return str(Q.create_table("c").as_select(Q.from_(Table(n)).select("x")))
     def drop_table(Q, n): return render(Q, Q.drop_table(n))
     # the same DDL through the other two render paths: str() and get_sql() without a context use the creating class's dialect
-    def drop_table_str(Q, n): return str(Q.drop_table(n))
-    def drop_table_noctx(Q, n): return Q.drop_table(n).get_sql()
-    def create_table_str(Q, n): return str(Q.create_table(n).columns(Column("x", "INT")))
-    def create_table_noctx(Q, n): return Q.create_table(n).columns(Column("x", "INT")).get_sql(None)
+    def drop_table_str(Q, n): return str(late(Q.drop_table(n)))
+    def drop_table_noctx(Q, n): return late(Q.drop_table(n)).get_sql()
+    def create_table_str(Q, n): return str(late(Q.create_table(n).columns(Column("x", "INT"))))
+    def create_table_noctx(Q, n): return late(Q.create_table(n).columns(Column("x", "INT"))).get_sql(None)
     def drop_table_if_exists(Q, n): return str(Q.drop_table(n).if_exists())
     def join_table_alias(Q, n):
         tn = _Table("u").as_(n)
@@ -186,7 +198,7 @@ def sites():
 
     import types
 
-    return {k: v for k, v in locals().items() if isinstance(v, types.FunctionType) and k not in ("render", "Table", "shared")}
+    return {k: v for k, v in locals().items() if isinstance(v, types.FunctionType) and k not in ("render", "Table", "shared", "late", "ddl_decoys")}
 
 
 # sites whose name is the alias of a table that the same statement uses as a qualifier: the alias must be DEFINED, i.e. written
@@ -269,6 +281,8 @@ def names(tier, rnd):
     out = ["".join(p) for n in (1, 2) for p in itertools.product(ALPHABET, repeat=n)]
     # long names (longer than the 30 / 63 / 64 / 128 character limits of the engines: the builder passes names through, it does not shorten them)
     out += ["n" + "0123456789" * 4, "same_first_thirty_characters_x_1", "same_first_thirty_characters_x_2", "é" * 35, "w" * 70, "L" + "o" * 130 + "ng"]
+    # names that are attributes / methods of the table and term classes
+    out += ["star", "alias", "field", "get_sql", "as_", "table", "name", "select", "join", "fields_", "tables_", "is_aggregate", "_table_name", "__class__"]
     out += KEYWORDS + ["My Col", 'a"b"c', "x``y", "a.b.c", "ü ñ", "tab\tname", "x'--", "a]b[c"]
     # names that are SQL punctuation or syntax when left bare
     out += ["{0}", "{}", "x{collate}y", "{criterion}", "{table}", "%(a)s", "{{", "*", "%", "?", "(", ")", ",", ";", "--", "/*", "*/", "=", "t.*", "$1", "%s", ":p", "@v", "#", "x y", "NULL", "1"]
